@@ -171,7 +171,7 @@ theorem cand_upd {m : LineSt} (rel0 : LineRel c emb s0 m) {pan : List Tgt} {n : 
   have base : LineRel c emb s { pan := pan, lp := m.lp, nr := m.nr } :=
     ⟨h.len_px, h.len_py, by rw [h.nx]; exact rel0.len_nx, by rw [h.ny]; exact rel0.len_ny,
      by rw [h.lpa]; exact rel0.len_lp, h.mlen, rel0.mlen_lp, rel0.mlen_nr, h.pan,
-     by rw [h.nx, h.ny]; exact rel0.nr, by rw [h.lpa]; exact rel0.lp⟩
+     by rw [h.nx, h.ny]; exact rel0.nr, by rw [h.lpa]; exact rel0.lp, rel0.nrlp⟩
   have hrel := h.pan p hp
   cases hm : pan.getD p none with
   | none =>
@@ -218,7 +218,7 @@ theorem cand_upd {m : LineSt} (rel0 : LineRel c emb s0 m) {pan : List Tgt} {n : 
       · intro a ha; simp [setS, ha]
       · refine ⟨by simpa [setS] using h.len_px, by simpa [setS] using h.len_py,
           by simpa [setS] using base.len_nx, by simpa [setS] using base.len_ny, by simpa [setS] using base.len_lp,
-          h.mlen, by simpa using rel0.mlen_lp, by simpa using rel0.mlen_nr, by simpa [setS] using h.pan, ?_, ?_⟩
+          h.mlen, by simpa using rel0.mlen_lp, by simpa using rel0.mlen_nr, by simpa [setS] using h.pan, ?_, ?_, ?_⟩
         · intro q hq
           by_cases hqp : p = q
           · subst hqp
@@ -230,6 +230,11 @@ theorem cand_upd {m : LineSt} (rel0 : LineRel c emb s0 m) {pan : List Tgt} {n : 
             simp [setS, getD_set, base.len_lp, rel0.mlen_lp, hp, lpRel, hnds, env.arith.sqrt_sq, env.arith.sqrt_lt,
               env.arith.sqrt_le]
           · simpa [setS, getD_set_ne _ _ _ _ _ hqp] using base.lp q hq
+        · intro q hq
+          by_cases hqp : p = q
+          · subst hqp
+            simp [getD_set, rel0.mlen_lp, hp]
+          · simpa [getD_set_ne _ _ _ _ _ hqp] using rel0.nrlp q hq
 
 end phases
 
@@ -286,7 +291,7 @@ theorem pixel_refines {N : Names} (hN : N.WF) {c : Cfg} {emb : Nat → F} {tg : 
     · intro a ha; simp [setS, ha, e2f]
     · refine ⟨by simpa [setS] using rel.len_px, by simpa [setS] using rel.len_py, by simpa [setS] using rel.len_nx,
         by simpa [setS] using rel.len_ny, by simpa [setS] using rel.len_lp, by simpa using rel.mlen_pan,
-        by simpa using rel.mlen_lp, by simpa using rel.mlen_nr, ?_, ?_, ?_⟩
+        by simpa using rel.mlen_lp, by simpa using rel.mlen_nr, ?_, ?_, ?_, ?_⟩
       · intro q hq
         by_cases hqp : p = q
         · subst hqp
@@ -302,6 +307,11 @@ theorem pixel_refines {N : Names} (hN : N.WF) {c : Cfg} {emb : Nat → F} {tg : 
         · subst hqp
           simp [setS, getD_set, rel.len_lp, rel.mlen_lp, hp, lpRel, env.arith.zero_sq, env.arith.zero_lt, env.arith.zero_le]
         · simpa [setS, getD_set_ne _ _ _ _ _ hqp] using rel.lp q hq
+      · intro q hq
+        by_cases hqp : p = q
+        · subst hqp
+          simp [getD_set, rel.mlen_lp, hp]
+        · simpa [getD_set_ne _ _ _ _ _ hqp] using rel.nrlp q hq
   | false =>
     rw [htg] at t2
     rw [exec_seq_run _ _ _ _ (by rw [tgt_false N s2 fuel t2]; exact c2), tgt_false N s2 fuel t2]
